@@ -71,9 +71,12 @@ def group(draw, name, in_class=False):
                     params.append("int d%d = %d" % (k, k + 1))
                 g["has_default"] = True
                 if draw(st.booleans()):
-                    sufs = ["_n%d%s" % (k, draw(st.sampled_from(["", "x", "args"]))) for k in range(nd + 1)]
+                    # a complete list (one entry per arity), a partial list (the remaining arities get the
+                    # default numbering: generate.has_default_args handles the IndexError) or one entry too many
+                    nlist = draw(st.sampled_from([nd + 1, nd + 1, nd, 1, nd + 2]))
+                    sufs = ["_n%d%s" % (k, draw(st.sampled_from(["", "x", "args"]))) for k in range(nlist)]
                     d["default_arg_suffix"] = sufs
-                    g["supplied"] += sufs
+                    g["supplied"] += sufs[:nd + 1]
             elif draw(st.integers(0, 2)) == 0:
                 s = "_" + draw(st.sampled_from(["from_a", "alt", "x"])) + str(i)
                 d["format"] = {"function_suffix": s}
@@ -125,6 +128,9 @@ def description(draw):
     # same C++ name in two namespaces (legal C++, distinct scopes)
     lib["python"] = draw(st.booleans())
     lib["lua"] = draw(st.booleans())
+    # declaration order inside a scope: group by group, or interleaved so that the members of an
+    # overload set are separated by other declarations
+    lib["spread"] = draw(st.booleans())
     return lib
 
 
@@ -141,8 +147,19 @@ def to_yaml(lib):
                 cur.append(node)
                 scopes[path] = node["declarations"]
             cur = scopes[path]
-        for d in g["decls"]:
-            cur.append(dict(d))
+        for k, d in enumerate(g["decls"]):
+            d = dict(d)
+            d["__rank"] = k
+            cur.append(d)
+
+    def reorder(decls):
+        if lib.get("spread"):
+            decls.sort(key=lambda d: d.get("__rank", -1))       # stable: round-robin over the groups
+        for d in decls:
+            d.pop("__rank", None)
+            if "declarations" in d:
+                reorder(d["declarations"])
+    reorder(top)
     doc = {"library": lib["library"], "cxx_header": "names.hpp",
            "options": {"wrap_python": lib["python"], "wrap_lua": lib["lua"], "debug": False},
            "declarations": top}
